@@ -1,10 +1,12 @@
 //! One module per property: domain (generator), oracle, non-triviality classifier.
 use crate::runner::Prop;
 
+pub mod c01;
+pub mod c02;
 pub mod c03;
 
 pub fn all() -> Vec<Prop> {
-    vec![c03::prop()]
+    vec![c01::prop(), c02::prop(), c03::prop()]
 }
 
 /// Auxiliary child entry points used by custom stages (`verif aux --prop ID ...`).
